@@ -277,3 +277,17 @@ def shallow_kind(t):
     if not t.args or t.kind in ("leaf", "literal", "struct"):
         return t.sig()
     return f"{t.kind}[{','.join(a.sig() if not a.args or a.kind in ('leaf', 'literal', 'struct') else a.kind for a in t.args)}]"
+
+
+def union_order_conflict(term) -> bool:
+    """Does the annotation contain two unions over the same member set in different declared orders?
+    typing makes them == (and hash-equal), so the library cannot tell them apart inside ONE annotation (known finding F3)."""
+    seen = {}
+    for t in term.walk():
+        if t.kind in ("union", "optional") and len(t.members) > 1:
+            key = (frozenset(m.src for m in t.members), t.none_at is not None)
+            order = tuple(m.src for m in t.members)
+            if key in seen and seen[key] != order:
+                return True
+            seen.setdefault(key, order)
+    return False
